@@ -14,7 +14,7 @@ Local Open Scope R_scope.
 Theorem C12_structure : forall (dmin flow dlow fnext dnext : R) (rest : list (R * R)) (pl nf : Z) (n : nat),
   both_increasing ((flow, dlow) :: (fnext, dnext) :: rest) -> 0 < dlow ->
   Forall (fun p => fst p <> 0) ((fnext, dnext) :: rest) -> 0 < dmin < dnext ->
-  Rtrunc (IZR (nf - pl - 1) / IZR pl + 5 / 10) = Z.of_nat n ->
+  Z.max (- ((- (nf - pl - 1)) / pl)) 0 = Z.of_nat n ->
   (forall p, In p ((fnext, dnext) :: rest) -> fst p < 999 / 1000) -> 0 < fnext ->
   forall a b, last2 (body dmin flow dlow fnext dnext rest n) = Some (a, b) ->
   let bd := body dmin flow dlow fnext dnext rest n in
@@ -94,9 +94,9 @@ Theorem C12_interpolation_monotone : forall dlow dnext flow fnext f1 f2 : R,
 Proof. intros. apply LC12.pow10_increasing. apply LC12.log10_interp_increasing; assumption. Qed.
 Print Assumptions C12_interpolation_monotone.
 
-(* subdivision counts for the default of ten fractions: two intervals left -> 4, one -> 8, three -> 2 *)
+(* subdivision counts for the default of ten fractions (rounded up): two intervals left -> 4, one -> 8, three -> 2, four -> 2 *)
 Theorem C12_between_points :
-  Rtrunc (IZR (10 - 2 - 1) / IZR 2 + 5 / 10) = Z.of_nat 4 /\ Rtrunc (IZR (10 - 1 - 1) / IZR 1 + 5 / 10) = Z.of_nat 8 /\
-  Rtrunc (IZR (10 - 3 - 1) / IZR 3 + 5 / 10) = Z.of_nat 2.
-Proof. exact (conj LC12c.between_points_3 (conj LC12c.between_points_1 LC12c.between_points_3pl)). Qed.
+  Z.max (- ((- (10 - 2 - 1)) / 2)) 0 = Z.of_nat 4 /\ Z.max (- ((- (10 - 1 - 1)) / 1)) 0 = Z.of_nat 8 /\
+  Z.max (- ((- (10 - 3 - 1)) / 3)) 0 = Z.of_nat 2 /\ Z.max (- ((- (10 - 4 - 1)) / 4)) 0 = Z.of_nat 2.
+Proof. exact (conj LC12c.between_points_3 (conj LC12c.between_points_1 (conj LC12c.between_points_3pl LC12c.between_points_4pl))). Qed.
 Print Assumptions C12_between_points.
